@@ -453,6 +453,36 @@ def gen_plan(run_seed, tier, index):
         else:
             steps.append({'op': 'delete', 'name': 'NoSuchClass', 'gone': [],
                           'reject': True})
+    # last step of some histories: a subclass whose overriding method
+    # declares fewer or more parameters than the method it overrides.
+    # Whether the server accepts that is not fixed by the property; it must
+    # either reject it with a CIM error and leave no class behind, or store
+    # a class that GetClass returns with at least the declared parameters.
+    live = sorted(m.cls)
+    cands = [x for x in live if m.depth(x) < 5 and any(
+        e['decl']['params'] for e in m.view(x)['methods'].values())]
+    if cands and r.random() < 0.3:
+        supl = r.choice(cands)
+        view = m.view(supl)
+        en = r.choice(sorted(k for k, e in view['methods'].items()
+                             if e['decl']['params']))
+        d = view['methods'][en]['decl']
+        params = [{'name': p['name'], 'type': p['type'], 'quals': {}}
+                  for p in d['params']]
+        how = r.choice(['fewer', 'fewer', 'more', 'none'])
+        if how == 'fewer':
+            del params[r.randrange(len(params))]
+        elif how == 'none':
+            params = []
+        else:
+            params.append({'name': 'Extra', 'type': 'uint8', 'quals': {}})
+        spec = {'name': 'Pvar', 'super': m.cls[supl]['name'], 'quals': {},
+                'props': [], 'methods': [{
+                    'name': d['name'], 'rtype': d['rtype'], 'quals': {},
+                    'params': params, 'override': True}]}
+        steps.append({'op': 'create_pvar', 'cls': spec, 'how': how,
+                      'inherited': [p['name'] for p in d['params']],
+                      'via': r.choice(['api', 'mof'])})
     return {'check': ID, 'forest': forest, 'steps': steps,
             'partial_scopes': r.random() < 0.3,
             'conn_default_ns': r.choice([NS, NS, 'root/other']),
@@ -901,6 +931,49 @@ def _first_diff(a, b):
     return '%r != %r' % (a, b)
 
 
+def _create_pvar(conn, st, V, probes):
+    spec = st['cls']
+    mname = spec['methods'][0]['name']
+    what = 'create_pvar %s.%s (%s parameters than the overridden method, ' \
+        'via %s)' % (spec['name'], mname, st['how'], st['via'])
+    try:
+        put_class(conn, spec, st['via'])
+        accepted = True
+    except pywbem.Error:
+        accepted = False
+    except Exception as e:  # pylint: disable=broad-except
+        V.append({'sig': 'C12/createclass-crashed/%s' % type(e).__name__,
+                  'msg': '%s raised %r' % (what, e)})
+        return
+    probes['pvar_%s_%s' % (st['how'], 'accepted' if accepted
+                           else 'rejected')] = 1
+    try:
+        got = conn.GetClass(spec['name'], namespace=NS, LocalOnly=False)
+    except CIMError as e:
+        if accepted or e.status_code != pywbem.CIM_ERR_NOT_FOUND:
+            V.append({'sig': 'C12/pvar-class-not-retrievable',
+                      'msg': '%s: GetClass raised %r' % (what, e)})
+        return
+    if not accepted:
+        V.append({'sig': 'C12/rejected-class-stored',
+                  'msg': '%s was rejected but the class exists' % what})
+        return
+    conn.DeleteClass(spec['name'], namespace=NS)  # (not part of the model)
+    meth = {n.lower(): x for n, x in got.methods.items()}.get(mname.lower())
+    if meth is None:
+        V.append({'sig': 'C12/pvar-method-missing', 'msg': what})
+        return
+    gp = {n.lower() for n in meth.parameters}
+    decl = {p['name'].lower() for p in spec['methods'][0]['params']}
+    allowed = decl | {n.lower() for n in st['inherited']}
+    if not decl <= gp <= allowed:
+        V.append({'sig': 'C12/pvar-parameter-set',
+                  'msg': '%s: GetClass shows the parameters %s; declared %s, '
+                         'overridden method has %s' % (
+                             what, sorted(gp), sorted(decl),
+                             sorted(st['inherited']))})
+
+
 # ------------------------------------------------------------ execution
 def execute(plan):
     warnings.simplefilter('ignore')
@@ -963,6 +1036,9 @@ def execute(plan):
     for st in plan['steps']:
         op = st['op']
         touched = []
+        if op == 'create_pvar':
+            _create_pvar(conn, st, V, probes)
+            continue
         try:
             if op == 'create':
                 put_class(conn, st['cls'], st['via'])
